@@ -30,7 +30,7 @@ Min(a, b) == IF a < b THEN a ELSE b
 S(c, name) == IF c THEN {name} ELSE {}
 
 TInit == /\ tid \in 1..Len(Batch) /\ l = 1 /\ bad = {} /\ cdel = <<>>
-         /\ Init /\ cfg = [strict |-> R.strict, zlib |-> R.zlib]
+         /\ Init /\ cfg = [strict |-> R.strict, zlib |-> R.zlib, mut |-> "none"]
 
 CanRead == rstate = "ok" /\ wire # <<>>
 Stuck   == UNCHANGED vars
